@@ -181,6 +181,14 @@ func (pk *PublicKey) ProofToHash(m, proof []byte) (index [32]byte, err error) {
 		return nilIndex, ErrInvalidVRF
 	}
 
+	// s and t must be scalars in [1, N-1]: for anything else the curve code returns nil points
+	// and the additions below dereference nil
+	for _, k := range [][]byte{s, t} {
+		if ki := new(big.Int).SetBytes(k); ki.Sign() == 0 || ki.Cmp(params.N) >= 0 {
+			return nilIndex, ErrInvalidVRF
+		}
+	}
+
 	// [t]G + [s]([k]G) = [t+ks]G
 	tGx, tGy := curve.ScalarBaseMult(t)
 	ksGx, ksGy := curve.ScalarMult(pk.X, pk.Y, s)
